@@ -26,7 +26,7 @@ import itertools
 
 import numpy as np
 
-from vf.prog.tree import RefMask, tindex, tstack, tsum
+from vf.prog.tree import EMPTY, RefMask, tindex, tstack, tsum
 from vf.ref import dens
 
 
@@ -469,7 +469,7 @@ class Vmap(Node):
             a_i = tuple(tindex(a, i) if ax is not None else a for a, ax in zip(args, self.in_axes))
             rets.append(self.inner.ref(env, path + (i,), a_i))
         if n == 0:
-            return None
+            return EMPTY
         return tstack(rets)
 
     def sites(self, prefix=()):
@@ -499,7 +499,7 @@ class Repeat(Node):
 
     def ref(self, env, path, args):
         rets = [self.inner.ref(env, path + (i,), args) for i in range(self.n)]
-        return tstack(rets) if rets else None
+        return tstack(rets) if rets else EMPTY
 
     def sites(self, prefix=()):
         return self.inner.sites(prefix + (("#", self.n),))
@@ -541,7 +541,7 @@ class Scan(Node):
             x = None if xs is None else tindex(xs, i)
             carry, y = self.kernel.ref(env, path + (i,), (carry, x))
             ys.append(y)
-        return (carry, tstack(ys) if ys else None)
+        return (carry, tstack(ys) if ys else EMPTY)
 
     def sites(self, prefix=()):
         return self.kernel.sites(prefix + (("#", self.n),))
